@@ -200,14 +200,14 @@ func (s *vlanSys) Check() []explore.Viol {
 	for _, n := range names {
 		p := m[n]
 		if o, dup := holder[p]; dup {
-			s.v("unique", "Get", "pair %v identifies both %s and %s", p, o, n)
+			s.v("unique", "", "pair %v identifies both %s and %s", p, o, n)
 		}
 		holder[p] = n
 		if !s.inRange(p) {
-			s.v("range", "Get", "%s holds %v outside S %d-%d / C %d-%d", n, p, s.cfg.STagRange.Start, s.cfg.STagRange.End, s.cfg.CTagRange.Start, s.cfg.CTagRange.End)
+			s.v("range", "", "%s holds %v outside S %d-%d / C %d-%d", n, p, s.cfg.STagRange.Start, s.cfg.STagRange.End, s.cfg.CTagRange.Start, s.cfg.CTagRange.End)
 		}
 		if o, used := s.a.VerifC20Owner(p.s, p.c); !used || o != n {
-			s.v("reverse", "sTagUsage", "%s holds %v but the usage map says %q (used=%v)", n, p, o, used)
+			s.v("reverse", "", "%s holds %v but the usage map says %q (used=%v)", n, p, o, used)
 		}
 	}
 	used := s.a.VerifC20UsedPairs()
@@ -216,12 +216,12 @@ func (s *vlanSys) Check() []explore.Viol {
 		p := pair{u[0], u[1]}
 		o, _ := s.a.VerifC20Owner(p.s, p.c)
 		if g, ok := s.get(o); !ok || g != p {
-			s.v("reverse", "sTagUsage", "usage map says %v is used by %s but Get(%s) = %v(%v)", p, o, o, g, ok)
+			s.v("reverse", "", "usage map says %v is used by %s but Get(%s) = %v(%v)", p, o, o, g, ok)
 		}
 	}
 	if st := s.a.Stats(); st.TotalAllocations != len(m) {
 		// NTEs outside the harness universe cannot exist, so the counts must agree
-		s.v("reverse", "Stats", "Stats.TotalAllocations=%d but %d NTEs have an allocation", st.TotalAllocations, len(m))
+		s.v("reverse", "", "Stats.TotalAllocations=%d but %d NTEs have an allocation", st.TotalAllocations, len(m))
 	}
 	if len(s.viols) > 0 {
 		return s.viols
@@ -243,18 +243,18 @@ func (s *vlanSys) Check() []explore.Viol {
 		}
 		p := pair{a.STag, a.CTag}
 		if o, h := holder[p]; h {
-			s.v("unique", "Allocate", "probe: fresh NTE was given %v which %s holds", p, o)
+			s.v("unique", "", "probe: fresh NTE was given %v which %s holds", p, o)
 		}
 		if got[p] {
-			s.v("unique", "Allocate", "probe: pair %v handed out twice", p)
+			s.v("unique", "", "probe: pair %v handed out twice", p)
 		}
 		if !s.inRange(p) {
-			s.v("range", "Allocate", "probe: fresh NTE was given %v outside the configured ranges", p)
+			s.v("range", "", "probe: fresh NTE was given %v outside the configured ranges", p)
 		}
 		got[p] = true
 	}
 	if len(got) != free {
-		s.v("reusable", "Allocate", "probe: %d pairs are not held by anyone but only %d could be obtained (held: %v)", free, len(got), m)
+		s.v("reusable", "", "probe: %d pairs are not held by anyone but only %d could be obtained (held: %v)", free, len(got), m)
 	}
 	return s.viols
 }
